@@ -98,7 +98,18 @@ impl Grp for GA {
         k * p
     }
     fn lambda(s: &mut Src) -> (F, &'static str) {
-        match s.choose(4) {
+        match s.choose(5) {
+            4 => {
+                // derived: choose a boundary value t for z^-2 (or z^-1 if t is a non-residue) and solve for lambda
+                let t = felt(s, Md::Q).v;
+                let t = if t.is_zero() { BigUint::one() } else { t };
+                let q = zp::q();
+                let l = match zp::sqrt_mod_5mod8(&t, q) {
+                    Some(rt) => zp::inv_mod(&rt, q).unwrap(),
+                    None => zp::inv_mod(&t, q).unwrap(),
+                };
+                (rf::f_from_big(&l), "derived")
+            }
             0 => (F::one().neg(), "-1"),
             1 => (F::from(2u64), "2"),
             _ => {
@@ -170,7 +181,29 @@ impl Grp for GB {
         k * p
     }
     fn lambda(s: &mut Src) -> (R2, &'static str) {
-        match s.choose(6) {
+        match s.choose(8) {
+            6 | 7 => {
+                // derived: choose t = a + b*u with boundary components (0, 1, -1, 2 or a boundary field element) for
+                // z^-2 (or z^-1 if t is not a square in Fq2) and solve for lambda
+                let comp = |s: &mut Src| -> F {
+                    match s.choose(5) {
+                        0 => F::zero(),
+                        1 => F::one(),
+                        2 => F::one().neg(),
+                        3 => F::from(2u64),
+                        _ => rf::f_from_big(&felt(s, Md::Q).v),
+                    }
+                };
+                let mut t = R2::new(comp(s), comp(s));
+                if Fld::is_zero(&t) {
+                    t = R2::one();
+                }
+                let l = match t.sqrt() {
+                    Some(rt) => rt.inv().unwrap(),
+                    None => t.inv().unwrap(),
+                };
+                (l, "derived")
+            }
             0 => (R2::one().neg(), "-1"),
             1 => (R2::new(F::from(2u64), F::zero()), "2"),
             2 => (R2::new(F::zero(), F::one()), "u"),
